@@ -256,7 +256,7 @@ func linTargets(p *Prog) (targets []linTarget, unclassified []string) {
 		if fn == nil || len(fn.Blocks) == 0 {
 			continue
 		}
-		idx := d.Arg
+		idx := fixArg(tf, d.Arg)
 		if seen[fn] == nil {
 			seen[fn] = map[int]bool{}
 		}
@@ -718,4 +718,110 @@ func callerNames(p *Prog, fn *ssa.Function) []string {
 		}
 	}
 	return sortedKeys(set)
+}
+
+// DOM/drain-reentrancy (C03, C07): the continuations kept in a subscription's
+// callback slots may re-enter the subscription (a re-access started from an
+// access callback, an unqueue from a ready callback). The function that runs
+// them therefore finishes its own bookkeeping first: once the first
+// continuation of the drain loop may have run, it stores to no field of the
+// subscription any more (a late `flags &^= inFlight` would erase what the
+// re-entrant call just set, or make it see a request as still in flight).
+func ruleDrainReentrancy(c *Ctx) {
+	p := c.P
+	subT := p.Named("server.Subscription")
+	for _, q := range []string{"server.Subscription.accessCallbacks", "server.Subscription.readyCallbacks"} {
+		f := p.Field(q)
+		if f == nil {
+			c.undecided(q, "anchor", "-", "field not found")
+			continue
+		}
+		found := 0
+		check := func(fn *ssa.Function, lv ssa.Value) {
+			loops := blocksInLoops(fn)
+			// the blocks in which an element of the drained content is taken
+			var heads []*ssa.BasicBlock
+			for d := range derivedOf(lv) {
+				if d.Referrers() == nil {
+					continue
+				}
+				for _, r := range *d.Referrers() {
+					switch x := r.(type) {
+					case *ssa.IndexAddr:
+						if loops[x.Block()] {
+							heads = append(heads, x.Block())
+						}
+					case *ssa.Index:
+						if loops[x.Block()] {
+							heads = append(heads, x.Block())
+						}
+					}
+				}
+			}
+			if len(heads) == 0 {
+				return
+			}
+			found++
+			c.inst(1)
+			bad := ""
+			reach := map[*ssa.BasicBlock]bool{}
+			var walk func(b *ssa.BasicBlock)
+			walk = func(b *ssa.BasicBlock) {
+				for _, s := range b.Succs {
+					if !reach[s] {
+						reach[s] = true
+						walk(s)
+					}
+				}
+			}
+			for _, h := range heads {
+				reach[h] = true
+				walk(h)
+			}
+			for _, in := range instrsOf(fn) {
+				st, ok := in.(*ssa.Store)
+				if !ok || !reach[st.Block()] {
+					continue
+				}
+				fa, ok := st.Addr.(*ssa.FieldAddr)
+				if !ok || subT == nil {
+					continue
+				}
+				pt, ok := fa.X.Type().Underlying().(*types.Pointer)
+				if !ok || !types.Identical(pt.Elem(), subT) {
+					continue
+				}
+				bad = "store to " + fieldOfAddr(fa).Name() + " @" + p.InstrPos(st) + " can execute after a continuation of the slot has run: the continuation may have re-entered the subscription, and this store overwrites or hides what it did"
+			}
+			c.check(bad == "", fnName(fn), "bookkeeping of "+q+" finished before its continuations run", p.Pos(fn.Pos()), "no store to a subscription field is reachable from the drain loop", bad)
+		}
+		for _, ld := range p.loads[f] {
+			li, ok := ld.(ssa.Instruction)
+			if !ok {
+				continue
+			}
+			lv := ld.(ssa.Value)
+			fn := li.Parent()
+			if consumedInLoop(lv) {
+				check(fn, lv)
+				continue
+			}
+			// take-helper: the callers drain the returned content
+			if returnsValue(fn, lv) && fn.Parent() == nil {
+				if node := p.CG.Nodes[fn]; node != nil {
+					for _, e := range node.In {
+						if e.Site == nil || e.Site.Common().StaticCallee() != fn {
+							continue
+						}
+						if cv, ok := e.Site.(ssa.Value); ok && consumedInLoop(cv) {
+							check(e.Site.Parent(), cv)
+						}
+					}
+				}
+			}
+		}
+		if found == 0 {
+			c.viol(q, "bookkeeping finished before continuations run", "-", "no drain loop found for the slot")
+		}
+	}
 }
